@@ -512,6 +512,7 @@ func (w *worker) runC14(p *harness.Pkg, t *tape.Tape, logOn bool) *verdict {
 			f.WriterFail, f.ReqReset, f.ReqResetInBody = true, true, true
 		}
 		rp.AuthReject = t.Flip(1, 5, "auth-reject")
+		rp.RespEmptyArrays = true
 		plan.Reqs = append(plan.Reqs, rp)
 	}
 	res := harness.Exec(p, plan, t, logOn)
@@ -645,6 +646,7 @@ func (w *worker) runC20(p *harness.Pkg, t *tape.Tape, logOn bool) *verdict {
 			}
 		}
 		rp.AuthReject = t.Flip(1, 6, "auth-reject")
+		rp.RespEmptyArrays = t.Choose(2, "empty-header-arrays") == 1
 		// a twin: same operation and exactly the same request values as an earlier typed request of this run
 		if i > 0 && rp.Kind == 0 && t.Flip(1, 4, "twin") {
 			src := plan.Reqs[t.Choose(i, "twin-of")]
